@@ -1,13 +1,316 @@
 package main
 
+// Connection-level part of C16: an established DTLCP connection is fed a scripted history of
+// datagrams: genuine application records of the peer (captured from the real client, delivered in
+// any order, any number of times) interleaved with datagrams that are not genuine (bit flips at any
+// position of a genuine record incl. its header, truncations, random bytes, records of the
+// handshake epoch).  After every arrival the harness notes what the receiving application got
+// from Read (or ReadFrom).
+
 import (
 	"encoding/json"
+	"fmt"
 	"math/rand/v2"
+	"strings"
+	"time"
 
+	"gitee.com/Trisia/gotlcp/dtlcp"
 	"verifharness/internal/emit"
+	"verifharness/internal/tk"
 )
 
-// connection-level part of C16: filled in once the DTLCP pair harness exists.
-func c16ConnGen(out *emit.Out, p params, r *rand.Rand) error { return nil }
+type c16Item struct {
+	Kind string `json:"kind"` // gen | flip | trunc | junk | old
+	I    int    `json:"i"`    // which written record (gen, flip, trunc)
+	Pos  int    `json:"pos,omitempty"`
+	Mask byte   `json:"mask,omitempty"`
+	Len  int    `json:"len,omitempty"`
+}
 
-func c16ConnReplay(out *emit.Out, scenario string, in json.RawMessage) error { return nil }
+type c16ConnInput struct {
+	Suite    uint16    `json:"suite"`
+	Window   int       `json:"window"`
+	ReadFrom bool      `json:"read_from"`
+	N        int       `json:"n"` // records written by the peer
+	Items    []c16Item `json:"items"`
+	JunkSeed uint64    `json:"junk_seed"`
+}
+
+type c16ConnObs struct {
+	Outcomes []string `json:"outcomes"`
+	Seqs     []uint64 `json:"seqs"` // record sequence number of each written payload
+	Err      string   `json:"err,omitempty"`
+	Hung     bool     `json:"hung,omitempty"`
+}
+
+const c16Tick = 100 * time.Millisecond
+
+func c16ConnRun(in c16ConnInput) (obs c16ConnObs, coqItems, coqOuts []string) {
+	reg := tk.NewRegistry()
+	cc := tk.EPConfig{Suites: []uint16{in.Suite}, Ident: "cli", ServerName: "server.test", PMTU: 4000}
+	sc := tk.EPConfig{Ident: "srv", PMTU: 4000, ReplayWindow: in.Window}
+	dp := tk.NewDPair(tk.BuildDTLCP(cc, reg), tk.BuildDTLCP(sc, reg))
+	dp.Net.Quantum = 50 * time.Millisecond
+	capturing := false
+	var captured, early [][]byte
+	dp.Net.Decide = func(d *tk.Dgram) tk.Action {
+		if d.From == 0 && capturing {
+			captured = append(captured, append([]byte(nil), d.Data...))
+			return tk.Action{Kind: "drop"}
+		}
+		if d.From == 0 {
+			early = append(early, append([]byte(nil), d.Data...))
+		}
+		return tk.Action{}
+	}
+	type got struct {
+		at  time.Duration
+		pay string
+		err string
+	}
+	var log []got
+	var at []time.Duration
+	endAt := time.Duration(len(in.Items)+6) * c16Tick
+	cprog := func(c *dtlcp.Conn) {
+		if err := c.Handshake(); err != nil {
+			obs.Err = "client handshake: " + err.Error()
+			dp.Net.End(0).Close()
+			return
+		}
+		sleep := func() {
+			c.SetReadDeadline(time.Now().Add(c16Tick))
+			c.Read(make([]byte, 64))
+		}
+		sleep() // the server's last flight has been handled
+		capturing = true
+		for i := 0; i < in.N; i++ {
+			c.Write([]byte(fmt.Sprintf("m%04d", i)))
+		}
+		sleep() // all records are with the network now
+		jr := rand.New(rand.NewPCG(in.JunkSeed, 0xC16C))
+		for _, it := range in.Items {
+			var data []byte
+			switch it.Kind {
+			case "gen", "flip", "trunc":
+				if it.I >= len(captured) {
+					obs.Err = "item refers to a record that was not captured"
+					return
+				}
+				data = append([]byte(nil), captured[it.I]...)
+				if it.Kind == "flip" {
+					m := it.Mask
+					if m == 0 {
+						m = 1
+					}
+					data[it.Pos%len(data)] ^= m
+				}
+				if it.Kind == "trunc" {
+					data = data[:it.Len%len(data)]
+				}
+			case "old":
+				data = append([]byte(nil), early[it.I%len(early)]...)
+			default:
+				data = make([]byte, 1+it.Len%120)
+				for i := range data {
+					data[i] = byte(jr.IntN(256))
+				}
+			}
+			at = append(at, dp.Net.Now())
+			dp.Net.Deliver(1, data)
+			sleep()
+		}
+	}
+	sprog := func(c *dtlcp.Conn) {
+		if err := c.Handshake(); err != nil {
+			obs.Err = "server handshake: " + err.Error()
+			dp.Net.End(1).Close()
+			return
+		}
+		buf := make([]byte, 4096)
+		for dp.Net.Now() < endAt {
+			c.SetReadDeadline(time.Now().Add(endAt - dp.Net.Now() + c16Tick))
+			var n int
+			var err error
+			if in.ReadFrom {
+				n, _, err = c.ReadFrom(buf)
+			} else {
+				n, err = c.Read(buf)
+			}
+			if n > 0 {
+				log = append(log, got{at: dp.Net.Now(), pay: string(buf[:n])})
+			}
+			if err != nil {
+				if tk.ErrClass(err) == "timeout" {
+					return
+				}
+				log = append(log, got{at: dp.Net.Now(), err: tk.ErrClass(err) + ": " + err.Error()})
+				return
+			}
+		}
+	}
+	obs.Hung = dp.Run(cprog, sprog, 30*time.Second)
+	if obs.Err != "" {
+		return
+	}
+	seqOf := map[string]uint64{}
+	for i, d := range captured {
+		var s uint64
+		if len(d) >= 13 {
+			for _, b := range d[5:11] {
+				s = s<<8 | uint64(b)
+			}
+		}
+		obs.Seqs = append(obs.Seqs, s)
+		seqOf[fmt.Sprintf("m%04d", i)] = s
+	}
+	failed := false
+	for k, it := range in.Items {
+		if k >= len(at) {
+			break
+		}
+		if it.Kind == "gen" {
+			coqItems = append(coqItems, fmt.Sprintf("Gen %d", obs.Seqs[it.I]))
+		} else {
+			coqItems = append(coqItems, "Bogus")
+		}
+		o := "Nothing"
+		for _, g := range log {
+			if failed { // the connection is gone: nothing is delivered any more
+				break
+			}
+			if g.at != at[k] {
+				continue
+			}
+			if g.err != "" {
+				o = "Failed"
+				failed = true
+			} else if s, ok := seqOf[g.pay]; ok {
+				o = fmt.Sprintf("Delivered %d", s)
+			} else {
+				o = "Delivered 281474976710655" // not a payload of the peer
+			}
+		}
+		obs.Outcomes = append(obs.Outcomes, o)
+		coqOuts = append(coqOuts, o)
+	}
+	return
+}
+
+func c16ConnAdd(out *emit.Out, scenario string, in c16ConnInput) {
+	obs, its, outs := c16ConnRun(in)
+	direct := ""
+	if obs.Hung {
+		direct = "hang"
+	} else if obs.Err != "" {
+		direct = "setup: " + obs.Err
+	}
+	mode := "read"
+	if in.ReadFrom {
+		mode = "readfrom"
+	}
+	cipher := "cbc"
+	if in.Suite == 0xe053 || in.Suite == 0xe051 {
+		cipher = "gcm"
+	}
+	out.Add(emit.Case{Scenario: "conn-" + scenario + "/" + mode + "-" + cipher, Trivial: len(in.Items) < 3, Input: in, Observed: obs, Direct: direct,
+		Coq: fmt.Sprintf("ConnCase (%d)%%Z [%s] [%s]", in.Window, strings.Join(its, "; "), strings.Join(outs, "; "))})
+}
+
+// c16ConnScript: a history over n written records: runs in order, replays, jumps ahead and back,
+// numbers around the window edge, with forgeries interleaved.
+func c16ConnScript(r *rand.Rand, n, window int, forge int) []c16Item {
+	eff := window
+	if eff <= 0 || eff > 64 {
+		eff = 64
+	}
+	if eff < 32 {
+		eff = 32
+	}
+	var items []c16Item
+	cur := 0
+	bogus := func() c16Item {
+		switch r.IntN(6) {
+		case 0:
+			return c16Item{Kind: "flip", I: r.IntN(n), Pos: r.IntN(13), Mask: byte(1 << r.IntN(8))} // header: type, version, epoch, sequence number, length
+		case 1, 2:
+			return c16Item{Kind: "flip", I: r.IntN(n), Pos: 13 + r.IntN(60), Mask: byte(1 + r.IntN(255))}
+		case 3:
+			return c16Item{Kind: "trunc", I: r.IntN(n), Len: r.IntN(60)}
+		case 4:
+			return c16Item{Kind: "old", I: r.IntN(4)}
+		default:
+			return c16Item{Kind: "junk", Len: r.IntN(120)}
+		}
+	}
+	for len(items) < 70 {
+		if r.IntN(100) < forge {
+			items = append(items, bogus())
+			continue
+		}
+		i := cur
+		switch r.IntN(8) {
+		case 0, 1, 2:
+			if cur < n-1 {
+				cur++
+			}
+			i = cur
+		case 3:
+			i = cur - r.IntN(eff+8)
+		case 4:
+			i = cur - eff + r.IntN(3) - 1
+		case 5:
+			if len(items) > 0 {
+				j := items[r.IntN(len(items))]
+				if j.Kind == "gen" {
+					i = j.I
+				}
+			}
+		case 6:
+			cur += r.IntN(eff + 10)
+			if cur > n-1 {
+				cur = n - 1
+			}
+			i = cur
+		default:
+			i = r.IntN(n)
+		}
+		if i < 0 {
+			i = 0
+		}
+		if i > n-1 {
+			i = n - 1
+		}
+		items = append(items, c16Item{Kind: "gen", I: i})
+	}
+	return items
+}
+
+func c16ConnGen(out *emit.Out, p params, r *rand.Rand) error {
+	windows := []int{0, 32, 48, 64, 100, 160}
+	n := 16
+	if p.tier == "thorough" {
+		n = 120
+	}
+	for k := 0; k < n; k++ {
+		w := windows[k%len(windows)]
+		suite := []uint16{0xe013, 0xe053}[(k/len(windows))%2]
+		in := c16ConnInput{Suite: suite, Window: w, ReadFrom: k%4 >= 2, N: 150, JunkSeed: r.Uint64()}
+		forge := []int{0, 25, 50}[k%3]
+		in.Items = c16ConnScript(r, in.N, w, forge)
+		c16ConnAdd(out, fmt.Sprintf("forge%d", forge), in)
+	}
+	return nil
+}
+
+func c16ConnReplay(out *emit.Out, scenario string, raw json.RawMessage) error {
+	var in c16ConnInput
+	if err := json.Unmarshal(raw, &in); err != nil {
+		return err
+	}
+	s := strings.TrimPrefix(scenario, "conn-")
+	if i := strings.Index(s, "/"); i >= 0 {
+		s = s[:i]
+	}
+	c16ConnAdd(out, s, in)
+	return nil
+}
